@@ -293,4 +293,65 @@ example : (let st := reach 0 ⟨9, 9, 9⟩ [.update ⟨0, 1, 1⟩ true, .persist
 example : reload ((reach 0 ⟨9, 9, 9⟩ [.update ⟨0, 1, 1⟩ true, .persistManager, .jump ⟨0, 0, 0⟩, .release]).world 2)
     ≠ .err := by decide
 
+/-! ### Queued forwards survive the reload unless the SAME inbound HTLC was already forwarded
+
+`reconcile queue mons`: `queue` = the written manager's to-forward queue (forward_htlcs /
+pending_intercepted_htlcs entries, each given by its previous hop), `mons` = the previous hops of the outbound
+HTLCs listed by the monitors of the channels that are closed at load time.  All queues, all monitor HTLC sets.
+HTLC ids are per-channel counters, so equal ids on different inbound channels are the normal case. -/
+
+/-- no cross-channel capture: a queued forward that the reload deletes has the same inbound channel AND the same
+    htlc id as an outbound HTLC of a closed channel's monitor (that monitor now resolves it) -/
+theorem reconcile_dropped_only_if_forwarded (queue mons : List HtlcRef) (f : HtlcRef)
+    (hq : f ∈ queue) (hd : f ∉ reconcile queue mons) : ∃ h ∈ mons, h.chan = f.chan ∧ h.id = f.id := by
+  rw [mem_reconcile] at hd
+  have : ¬ ∀ h ∈ mons, pendingForwardMatches f.chan f.id h.chan h.id = false := fun hall => hd ⟨hq, hall⟩
+  rw [Classical.not_forall] at this
+  obtain ⟨h, hh⟩ := this
+  rw [Classical.not_imp] at hh
+  obtain ⟨hm, hne⟩ := hh
+  have ht : pendingForwardMatches f.chan f.id h.chan h.id = true := by
+    cases hx : pendingForwardMatches f.chan f.id h.chan h.id with
+    | true => rfl
+    | false => exact absurd hx hne
+  obtain ⟨h1, h2⟩ := (pendingForwardMatches_iff _ _ _ _).mp ht
+  exact ⟨h, hm, h1.symm, h2.symm⟩
+
+/-- a queued forward whose (inbound channel, id) no closed channel's monitor lists — it was never forwarded — is
+    still queued after the reload, whatever ids other inbound channels use -/
+theorem reconcile_never_forwarded_kept (queue mons : List HtlcRef) (f : HtlcRef)
+    (hq : f ∈ queue) (hn : ∀ h ∈ mons, ¬ (h.chan = f.chan ∧ h.id = f.id)) : f ∈ reconcile queue mons := by
+  rw [mem_reconcile]
+  refine ⟨hq, fun h hh => ?_⟩
+  cases hx : pendingForwardMatches f.chan f.id h.chan h.id with
+  | false => rfl
+  | true =>
+    obtain ⟨h1, h2⟩ := (pendingForwardMatches_iff _ _ _ _).mp hx
+    exact absurd ⟨h1.symm, h2.symm⟩ (hn h hh)
+
+/-- ... and one that a closed channel's monitor does list is removed (it is not forwarded a second time) -/
+theorem reconcile_forwarded_dropped (queue mons : List HtlcRef) (h : HtlcRef) (hm : h ∈ mons) :
+    h ∉ reconcile queue mons := by
+  rw [mem_reconcile]
+  rintro ⟨_, hall⟩
+  have := hall h hm
+  rw [(pendingForwardMatches_iff _ _ _ _).mpr ⟨rfl, rfl⟩] at this
+  cases this
+
+/-- the same three facts for HTLCs still waiting to be decoded (decode_update_add_htlcs, keyed by the inbound
+    channel; dedup_decode_update_add_htlcs compares ids inside that channel's entry only) -/
+theorem dedup_decode_exact (m : List (Nat × List Nat)) (mons : List HtlcRef) (r : HtlcRef) :
+    r ∈ decodeRefs (dedupDecode m mons) ↔ r ∈ decodeRefs m ∧ ∀ h ∈ mons, ¬ (h.chan = r.chan ∧ h.id = r.id) := by
+  rw [mem_decodeRefs_dedupDecode]
+  constructor
+  · rintro ⟨h1, h2⟩
+    refine ⟨h1, fun h hh hc => h2 h hh ⟨hc.1.symm, (dedupMatches_iff _ _).mpr hc.2.symm⟩⟩
+  · rintro ⟨h1, h2⟩
+    refine ⟨h1, fun h hh hc => h2 h hh ⟨hc.1.symm, ((dedupMatches_iff _ _).mp hc.2).symm⟩⟩
+
+/-- two inbound channels (7 and 8) both carry htlc id 0; channel 7's was forwarded over a channel that is closed at
+    load time, channel 8's is still queued: only the former is removed -/
+example : reconcile [⟨7, 0⟩, ⟨8, 0⟩, ⟨8, 1⟩] [⟨7, 0⟩] = [⟨8, 0⟩, ⟨8, 1⟩] := by decide
+example : dedupDecode [(7, [0, 1]), (8, [0])] [⟨7, 0⟩, ⟨7, 1⟩] = [(8, [0])] := by decide
+
 end Ldk.C10
